@@ -24,7 +24,9 @@ def access_key(op: dict[str, Any]) -> list[Any]:
 def stored_name(op: dict[str, Any], name: str) -> str:
     """File name an op stores its text under: normally unique per op; with a ``slot`` the same
     path is written again and again (a file replaced in place between parses)."""
-    if op.get("slot") is not None:
+    if op.get("shared_slot") is not None:
+        name = f"shared{op['shared_slot']}"  # ONE path used by every caller thread
+    elif op.get("slot") is not None:
         name = name.split("o")[0] + f"slot{op['slot']}"
     if op.get("fname"):
         # file and folder names as users have them: blanks, braces, per-cent signs, non-ASCII
